@@ -35,8 +35,10 @@ thread_local! { static HELD_READER: std::cell::Cell<bool> = const { std::cell::C
 static HOLD: Mutex<(bool, bool)> = Mutex::new((false, false)); // (reader is parked, reader may go on)
 static HOLD_CV: std::sync::Condvar = std::sync::Condvar::new();
 
+thread_local! { static HELD_AT_PIN: std::cell::Cell<bool> = const { std::cell::Cell::new(false) }; }
+
 fn point(name: &'static str) {
-    if name == "c08_unpinned" && HELD_READER.with(|h| h.get()) {
+    if (name == "c08_unpinned" && HELD_READER.with(|h| h.get())) || (name == "c08_pinned" && HELD_AT_PIN.with(|h| h.get())) {
         let mut g = HOLD.lock().unwrap();
         g.0 = true;
         HOLD_CV.notify_all();
@@ -205,6 +207,115 @@ fn directed_late_cache_fill(dir: &str, sh: u64) -> (String, String) {
     ("note race directed=late-cache-fill".to_string(), verdict)
 }
 
+/// Directed (C08, blocks under a reader): a reader of a key with a time-to-live passes the expiry
+/// check while the key is alive and is held between its pin and its device read; the expiry instant
+/// passes; the key is overwritten and a flush tries to retire the old extent.  While the reader is
+/// held no device write may land in the pinned blocks.
+fn directed_expired_pinned_reader(dir: &str, sh: u64) -> (String, String) {
+    let path = format!("{dir}/dev/race_exp_{sh}.feox");
+    let _ = std::fs::remove_file(&path);
+    *HOLD.lock().unwrap() = (false, false);
+    let run = || -> Result<&'static str, String> {
+        let store = Arc::new(
+            FeoxStore::builder()
+                .device_path(path.clone())
+                .file_size(40 * 4096)
+                .hash_bits(6)
+                .enable_caching(false)
+                .enable_ttl(true)
+                .no_memory_limit()
+                .build()
+                .map_err(|e| format!("cannot-create-store {e}"))?,
+        );
+        let key = key_of(78);
+        let (old, new) = (value_of(78, 1, 5000), value_of(78, 2, 5000));
+        let t_insert = std::time::Instant::now();
+        store.insert_with_ttl(&key, &old, 1).map_err(|e| format!("insert {e}"))?;
+        store.flush().map_err(|e| format!("flush {e}"))?;
+        let mark = EVENTS.lock().unwrap().len();
+        let reader = {
+            let (store, key) = (store.clone(), key.clone());
+            std::thread::spawn(move || {
+                HELD_AT_PIN.with(|h| h.set(true));
+                store.get(&key)
+            })
+        };
+        let release = || {
+            let mut g = HOLD.lock().unwrap();
+            g.1 = true;
+            HOLD_CV.notify_all();
+        };
+        {
+            let mut g = HOLD.lock().unwrap();
+            let t0 = std::time::Instant::now();
+            while !g.0 {
+                if t0.elapsed() > Duration::from_millis(700) {
+                    // not parked: the value was resident or the key had expired before the read started
+                    drop(g);
+                    release();
+                    let _ = reader.join();
+                    return Ok("reader-not-parked");
+                }
+                g = HOLD_CV.wait_timeout(g, Duration::from_millis(20)).unwrap().0;
+            }
+        }
+        let pinned = EVENTS.lock().unwrap()[mark..].iter().rev().find(|e| e.0 == b'p').map(|e| (e.1, e.2));
+        let Some((psec, pblocks)) = pinned else {
+            release();
+            let _ = reader.join();
+            return Err("reader-parked-without-a-pin-event".into());
+        };
+        // the expiry instant passes while the reader stands between pin and read
+        let wait = Duration::from_millis(1400).saturating_sub(t_insert.elapsed());
+        std::thread::sleep(wait);
+        let mark2 = EVENTS.lock().unwrap().len();
+        let flusher = {
+            let (store, key, new) = (store.clone(), key.clone(), new.clone());
+            std::thread::spawn(move || {
+                let a = store.insert(&key, &new).map(|_| ());
+                let b = store.flush();
+                (a, b)
+            })
+        };
+        std::thread::sleep(Duration::from_millis(600));
+        let hit = EVENTS.lock().unwrap()[mark2..]
+            .iter()
+            .find(|e| e.0 == b'w' && e.1 < psec + pblocks && psec < e.1 + e.2)
+            .map(|e| (e.1, e.2));
+        release();
+        let got = reader.join();
+        let fl = flusher.join();
+        if let Some((wsec, wblocks)) = hit {
+            return Err(format!(
+                "device-write-into-pinned-blocks-of-an-expired-generation pinned={psec}+{pblocks} write={wsec}+{wblocks} (reader held between pin and read)"
+            ));
+        }
+        match got {
+            Ok(Ok(v)) if v == old || v == new => {}
+            Ok(Ok(_)) => return Err("held-reader-returned-bytes-never-written".into()),
+            Ok(Err(FeoxError::KeyNotFound)) | Ok(Err(FeoxError::StaleExtent)) => {}
+            Ok(Err(e)) => return Err(format!("held-reader-error {e}")),
+            Err(_) => return Err("held-reader-panicked".into()),
+        }
+        match fl {
+            Ok((Ok(()), Ok(()))) => {}
+            Ok((a, b)) => return Err(format!("overwrite-or-flush-failed {:?} {:?}", a.err().map(|e| e.to_string()), b.err().map(|e| e.to_string()))),
+            Err(_) => return Err("overwrite-or-flush-panicked".into()),
+        }
+        if store.get(&key).ok().as_deref() != Some(&new[..]) {
+            return Err("read-after-the-overwrite-is-not-the-new-value".into());
+        }
+        Ok("reader-held-across-the-expiry")
+    };
+    let (status, verdict) = match std::panic::catch_unwind(std::panic::AssertUnwindSafe(run)) {
+        Ok(Ok(st)) => (st, "ok".to_string()),
+        Ok(Err(e)) => ("failed", format!("FAIL {e}")),
+        Err(_) => ("failed", "FAIL an-api-call-panicked".to_string()),
+    };
+    let _ = std::fs::remove_file(&path);
+    (format!("note race directed=expired-pinned-reader {status}"), verdict)
+}
+
 pub fn racechild(opts: &Opts) -> i32 {
     let dir = opts.str("out", "/verif/.build/cases/race");
     let sh = opts.u64("shard", 0);
@@ -221,6 +332,10 @@ pub fn racechild(opts: &Opts) -> i32 {
     std::fs::create_dir_all(format!("{dir}/dev")).unwrap();
     if sh < 2 {
         let (case, verdict) = directed_late_cache_fill(&dir, sh);
+        out.emit3(&case, "note", &verdict);
+    }
+    if sh == 2 || sh == 3 {
+        let (case, verdict) = directed_expired_pinned_reader(&dir, sh);
         out.emit3(&case, "note", &verdict);
     }
     let mut summary = std::collections::BTreeMap::<String, u64>::new();
